@@ -576,8 +576,16 @@ Definition mon_step (m : mon) (ob : obs) : mon * string :=
   let D' := ob_dump ob in
   let rp := ob_reply ob in
   let calls := ob_calls ob in
+  (* the request itself makes a lock-owner share a file through a second open-owner file *)
+  let sharing_now :=
+    match ob_ev ob with
+    | EReq _ _ fh (RLockNew _ _ _ _ _ _ lclient lowner) =>
+      existsb (fun l => pair_eqb (lf_client l, lf_lokey l) (lclient, lowner)
+                        && opt_eqb N.eqb (d_handle_of_lofs D l) (fh_handle fh)) (d_lofs D)
+    | _ => false
+    end in
   let hard : string := match rp with
-                       | RpPanic => if shared_lock_owner D then "C20:shared-lock-owner-panic" else "C18:panic"
+                       | RpPanic => if shared_lock_owner D || sharing_now then "C20:shared-lock-owner-panic" else "C18:panic"
                        | RpHang => "C19:hang" | _ => "" end%string in
   let '(err, pend, last) :=
     match ob_ev ob with
